@@ -312,6 +312,30 @@ func codecExec(ops []string) (dops []string, res []string) {
 				}
 			}
 			w.Close()
+			// the record encoder on its own: the bytes it returned for one entry stay what they are while further entries are
+			// encoded (whoever calls it may hold several records at once)
+			if len(all) >= 2 {
+				var kept, orig [][]byte
+				for i := range all {
+					b, err := utils.TMarshal(&all[i])
+					if err != nil {
+						panic(err)
+					}
+					kept = append(kept, b)
+					orig = append(orig, append([]byte{}, b...))
+				}
+				same := true
+				for i := range kept {
+					if !bytes.Equal(kept[i], orig[i]) {
+						same = false
+					}
+				}
+				if same {
+					add("intact wal-records", "intact")
+				} else {
+					add("intact wal-records", "CHANGED: the bytes returned by the wal record encoder were overwritten by a later call")
+				}
+			}
 			files, _ := filepath.Glob(filepath.Join(sub, "*.log"))
 			fileBytes, _ := os.ReadFile(files[0])
 			joined := "[]"
